@@ -359,9 +359,16 @@ def check_read_state_reset(cx, rep, srcs):
         if not rd:
             continue
         reset = {}
+        restartable = False
         for m_ in ('open', 'close', 'rewind'):
             for f, vs in effective_stores(cx, mod, c, m_).items():
                 reset.setdefault(f, []).append(m_)
+                if m_ in ('open', 'rewind') and any(v[0] != 'c' for v in vs):
+                    restartable = True          # open() makes a new stream / rewind moves a cursor: the samples come again
+                if m_ == 'rewind':
+                    restartable = True
+        if not restartable:
+            continue        # open() only raises a flag over a stream that exists once (standard input): what was consumed is gone anyway
         r = cx.model.find_method(mod, c, 'read')
         for f in sorted(rd):
             n += 1
